@@ -129,6 +129,12 @@ META = {
         "level_text": "Generated search over cron grammar x calendar anchors x tick scripts (gaps, late/bunched ticks, restarts) x file events x run histories; every tick's Start/Stop/Restart calls compared with the model.",
         "level_note": "Trusted: the ~120-line independent matcher (self-checked against the library each run); the fake client's fidelity (Start takes a moment, status = what it recorded). The real-time loop is not executed.",
     },
+    "C20": {
+        "engine": "storemodel", "design_ref": "DESIGN.md section 3 C20",
+        "technique": "model-based (stateful) property testing with rapid through the generated API handlers configured by the real frontend handler; before/after full-dump oracle (metamorphic: refused or malformed => identical dumps; accepted => exactly the permitted delta)",
+        "level_text": "Generated action sequences x DAG states (never run, finished, failed, running, canceled, crashed) x argument classes through httptest; every action judged by comparing complete dumps of histories, definitions, flags and the spawn log.",
+        "level_note": "Trusted: the dump covers everything the property speaks about (history, definitions, suspend flags, spawned commands); the in-process agent as producer of realistic histories.",
+    },
 }
 
 NOT_APPLICABLE = {}
